@@ -145,6 +145,15 @@ pub fn e2e_scenario(c: &E2eCase) -> crate::e2e::Scenario {
         update_position: false,
         with_file: c.with_file,
         via_config,
+        // the filters also decide what enters the stored history (/track): asked for the first frame's aircraft and
+        // for one other aircraft of the batch
+        track: {
+            let mut t = vec![first.addr];
+            if let Some(o) = c.frames.iter().find(|f| f.addr != first.addr) {
+                t.push(o.addr);
+            }
+            t
+        },
     }
 }
 
@@ -187,6 +196,18 @@ pub fn judge_e2e(sc: &crate::e2e::Scenario, out: &crate::e2e::Outcome, rep: &Val
         Ok(())
     };
     judge_lines("stdout", &out.lines)?;
+    // the stored history of an aircraft (only extended squitters and Comm-B replies are stored) holds exactly its
+    // kept records: compared through the reception time of each record
+    for (addr, hist) in &out.tracks {
+        let icao = format!("{addr:06x}");
+        let mut want: Vec<String> = out.lines.iter().filter_map(|l| serde_json::from_str::<Value>(l).ok()).filter(|v| v["icao24"] == icao.as_str() && matches!(v["df"].as_str(), Some("17") | Some("18") | Some("20") | Some("21"))).map(|v| v["timestamp"].to_string()).collect();
+        let mut have: Vec<String> = hist.as_array().map(|a| a.iter().map(|v| v["timestamp"].to_string()).collect()).unwrap_or_default();
+        want.sort();
+        have.sort();
+        if want != have {
+            return Err(fail("history-differs-from-kept-records", format!("/track?icao24={icao} holds records received at {have:?}; the kept extended-squitter / Comm-B records of that aircraft were received at {want:?}")));
+        }
+    }
     if let Some(fl) = &out.file_lines {
         // the file receives the same records in the same order; the process is stopped while it runs, so the record
         // printed last may not have reached the file yet (the write follows the println in the same loop iteration)
@@ -268,7 +289,7 @@ fn case() -> impl Strategy<Value = Case> {
 }
 
 pub fn run(ctx: &Ctx) {
-    ctx.set_rule("for each DF in {0,4,5,11,16,17,18,20,21}: a decodable frame with generated address and payload; df filter and aircraft filter each in {absent, empty, [own value], [other values], [others with the own value at any position]}, built as structs or through TOML like the repository test; also records whose decoding failed. Oracle: Filters::is_in == (df filter absent or empty or contains the JSON df) and (aircraft filter absent or empty or contains the JSON icao24), where the JSON is serde_json::to_value(&TimedMessage); undecoded => false. Non-trivial = configuration in which exactly one filter is non-empty; distinct by hash. Plus the full cross product of DF x 5 x 5 filter shapes x struct/TOML. End to end: batches of 6-27 distinct frames (every address-carrying DF, shared addresses / DFs, frames that do not decode) are served to the real jet1090 binary as a Beast TCP source with the filters given on the command line or in a configuration file (the only way to write an empty list); its stdout and its --output file must contain exactly the records whose shown df / icao24 pass (completion is detected through the /all endpoint, scenarios that cannot be completed are skipped and counted).");
+    ctx.set_rule("for each DF in {0,4,5,11,16,17,18,20,21}: a decodable frame with generated address and payload; df filter and aircraft filter each in {absent, empty, [own value], [other values], [others with the own value at any position]}, built as structs or through TOML like the repository test; also records whose decoding failed. Oracle: Filters::is_in == (df filter absent or empty or contains the JSON df) and (aircraft filter absent or empty or contains the JSON icao24), where the JSON is serde_json::to_value(&TimedMessage); undecoded => false. Non-trivial = configuration in which exactly one filter is non-empty; distinct by hash. Plus the full cross product of DF x 5 x 5 filter shapes x struct/TOML. End to end: batches of 6-27 distinct frames (every address-carrying DF, shared addresses / DFs, frames that do not decode) are served to the real jet1090 binary as a Beast TCP source with the filters given on the command line or in a configuration file (the only way to write an empty list); its stdout, its --output file and the stored history served by /track must contain exactly the records whose shown df / icao24 pass (completion is detected through the /all endpoint, scenarios that cannot be completed are skipped and counted).");
     ctx.assume("what the record 'displays' is the df / icao24 of its JSON serialisation");
     // full cross product of shapes for every DF
     let shapes: Vec<Option<Vec<u8>>> = vec![None, Some(vec![]), Some(vec![0]), Some(vec![7]), Some(vec![9, 0, 3])];
